@@ -287,6 +287,10 @@ class MD3(DriftDetector):
                 the same number and names of columns as the original reference distribution."""
             )
 
+        # features are used by position further on (the classifier is refit on
+        # the adopted batch): keep the reference's column order
+        labeled_sample = labeled_sample[reference_columns]
+
         self.drift_state = None
 
         if self.oracle_data is None:
